@@ -25,7 +25,7 @@ S = Suite(
     what="reciprocity: sum(q0*footprint) vs forward field at the tower (flux and "
          "concentration above background), two public solver calls per case",
     bound="grids 6..24 x 6..20 cells (even, and odd with clamped modes), dx!=dy from a menu of "
-          "exactly representable spacings, on-grid towers, halo in {None, 0, commensurate, "
+          "exactly representable spacings plus every column of a 48 x 30 grid with dx = 1000/48, dy = 80/30, on-grid towers, halo in {None, 0, commensurate, "
           "incommensurate}, modes truncated / at / above the padded size, closures MOST, "
           "MOSTM, CONSTANT, OAAHOC and hand-built anisotropic veering profiles, nz 6..17, "
           "random / sparse / smooth sources, all output levels incl. the top node, single "
@@ -173,6 +173,8 @@ SPACINGS = [  # (dx, dy, commensurate halo, incommensurate halo); all exactly re
     (12.5, 6.25, 25.0, 30.0),
     (10.0, 10.0, 20.0, 25.0),
     (6.0, 9.0, 18.0, 13.0),
+    # increments that are NOT exactly representable (1000 m / 48 cells, 80 m / 30 cells): (i*dx)/dx need not be i
+    (1000.0 / 48, 80.0 / 30, 3 * (1000.0 / 48), 30.0),
 ]
 CLOSURES = [
     dict(kind="closure", closure="MOST", n=6, zm=4.0, wind=[3.0, 1.0], ustar=0.4, mol=-50.0),
@@ -230,7 +232,7 @@ def generate(tier, rng):
             for precision in ("double", "single"):
                 yield case(16, 12, 0, hk, mk, 0, "random", precision)
         for pk in range(len(CLOSURES)):
-            yield case(12, 10, pk % len(SPACINGS), hk, "trunc", pk, "sparse", "double")
+            yield case(12, 10, pk % (len(SPACINGS) - 1), hk, "trunc", pk, "sparse", "double")
     # corners and edges of the grid as towers
     for pt in ((0, 0), (15, 0), (0, 11), (15, 11), (8, 6)):
         for hk in ("zero", "incomm", "none"):
@@ -242,11 +244,14 @@ def generate(tier, rng):
     for nx, ny in ((9, 7), (7, 10), (12, 9)):
         for hk in ("zero", "none", "incomm", "comm"):
             yield case(nx, ny, 0, hk, "above", 5, "random", "double")
+    # every column (and a walk through the rows) of a grid with non-representable increments as tower
+    for im in range(48):
+        yield case(48, 30, 6, ("zero", "incomm", "none")[im % 3], "trunc", (0, 5)[im % 2], "sparse", "double", pt=(im, (7 * im) % 30))
     # random part of the family
     for _ in range(n_random):
         nx = rng.choice([6, 8, 10, 12, 14, 16, 20, 24])
         ny = rng.choice([6, 8, 10, 12, 16, 20])
-        yield case(nx, ny, rng.randrange(len(SPACINGS)),
+        yield case(nx, ny, rng.randrange(len(SPACINGS) - 1),
                    rng.choice(["none", "zero", "comm", "incomm"]),
                    rng.choice(["trunc", "trunc", "at", "above"]),
                    rng.randrange(len(CLOSURES)),
